@@ -407,9 +407,11 @@ func Mutants(base *Schema) []Mutant {
 						m := base.Clone()
 						m.Defs[di].Fields[foIdx].Args = append(m.Defs[di].Fields[foIdx].Args[:oi:oi], m.Defs[di].Fields[foIdx].Args[oi+1:]...)
 						add(m, "R7", ai.Name, "missing-interface-argument", "drops argument "+ai.Name, both)
-						m = base.Clone()
-						m.Defs[di].Fields[foIdx].Args[oi].Type = L(cloneT(ai.Type))
-						add(m, "R7", ai.Name, "interface-argument-type", "argument type differs", both)
+						for _, vt := range argTypeVariants(ai.Type) {
+							m = base.Clone()
+							m.Defs[di].Fields[foIdx].Args[oi].Type = vt
+							add(m, "R7", ai.Name, "interface-argument-type:"+wrapLabel(vt), fmt.Sprintf("argument %s: %s where the interface has %s", ai.Name, vt, ai.Type), both)
+						}
 					}
 				}
 				m := base.Clone()
@@ -504,4 +506,25 @@ func retarget(t *T, name string) *T {
 	}
 	x.Name = name
 	return c
+}
+
+// argTypeVariants returns types that differ from t in exactly one way: wrapped in a list, or non-null added /
+// removed at one depth (an interface argument must be implemented with exactly the same type).
+func argTypeVariants(t *T) []*T {
+	out := []*T{L(cloneT(t))}
+	var rec func(cur *T, rebuild func(*T) *T)
+	rec = func(cur *T, rebuild func(*T) *T) {
+		switch cur.K {
+		case world.TNonNull:
+			out = append(out, rebuild(cloneT(cur.Of))) // non-null removed here
+			rec(cur.Of, func(x *T) *T { return rebuild(NN(x)) })
+		case world.TList:
+			out = append(out, rebuild(NN(cloneT(cur)))) // non-null added here
+			rec(cur.Of, func(x *T) *T { return rebuild(L(x)) })
+		default:
+			out = append(out, rebuild(NN(cloneT(cur))))
+		}
+	}
+	rec(t, func(x *T) *T { return x })
+	return out
 }
